@@ -48,6 +48,7 @@ TENSORS = [
     T(I64, (2, 3)),  # rank 2
     T(F32, (2, "N", None)),  # rank 3, symbolic and unknown dims
     T(BOOL, None),  # unknown shape (unknown rank)
+    T(F32, (0, 3)),  # a zero-sized static dim
 ]
 NON_TENSORS = [
     {"seq": T(F32, (3,))},
@@ -59,8 +60,21 @@ POOL = TENSORS + NON_TENSORS
 SEQS = [{"seq": T(F32, (3,))}, {"seq": T(I64, None)}, {"seq": T(BOOL, (2, 2))}]
 
 
+class _Types:
+    """The public type constructors (spox.Tensor / Sequence / Optional)."""
+
+    def __init__(self, spox):
+        self.Tensor, self.Sequence, self.Optional = spox.Tensor, spox.Sequence, spox.Optional
+
+
+class Unobservable(Exception):
+    """A facet of spox the harness wanted to look at is not there (renamed / removed / changed)."""
+
+
 class Env:
-    """The real spox, reached from outside."""
+    """The real spox, reached from outside. Everything the model-free oracle needs comes from the
+    public API (spox.argument / build / Tensor / Var.type, the opset modules); internals are optional
+    and their absence is recorded in `problems` (-> ck.broken), never raised."""
 
     def __init__(self):
         import importlib
@@ -68,19 +82,27 @@ class Env:
         import numpy as np
         import onnx
         import spox
-        import spox._graph as graph
-        import spox._node as node
-        import spox._type_system as ts
-        from spox._var import Var
 
-        self.np, self.onnx, self.spox, self.graph, self.node, self.ts, self.Var = (
-            np, onnx, spox, graph, node, ts, Var)
+        self.np, self.onnx, self.spox = np, onnx, spox
+        self.ts = _Types(spox)
+        self.problems = []
+        self.graph = self.node = None
+        self.Var = getattr(spox, "Var", None)
+        for attr, modname in (("graph", "spox._graph"), ("node", "spox._node")):
+            try:
+                setattr(self, attr, importlib.import_module(modname))
+            except Exception as e:  # noqa: BLE001
+                self.problems.append(f"{modname} not importable: {type(e).__name__}: {e}")
         self.mods = {}
         for p in sorted((core.REPO / "src/spox/opset/ai/onnx").glob("v*.py"), key=lambda q: int(q.stem[1:])):
-            self.mods[p.stem] = importlib.import_module(f"spox.opset.ai.onnx.{p.stem}")
+            try:
+                self.mods[p.stem] = importlib.import_module(f"spox.opset.ai.onnx.{p.stem}")
+            except Exception as e:  # noqa: BLE001
+                self.problems.append(f"spox.opset.ai.onnx.{p.stem} not importable: {type(e).__name__}: {e}")
         self.seen_vars = []  # keeps every Var handed to a callback alive (ids stay unique)
         self.seen_ids = set()
         self.spy = None  # active recording of Node.__init__ calls
+        self.spy_ok = False
 
     # -- types
     def to_spox(self, d):
@@ -108,33 +130,47 @@ class Env:
         return {"other": repr(t)}
 
     def operand(self, d):
-        if d is None:  # a Var of unknown type
-            v = self.spox.argument(self.ts.Tensor(self.np.float32, ()))
-            return self.Var(v._op, None)
+        if d is None:  # a Var of unknown type (needs the protected Var constructor)
+            try:
+                v = self.spox.argument(self.ts.Tensor(self.np.float32, ()))
+                u = self.Var(v._op, None)
+                assert u.type is None
+                return u
+            except Exception as e:  # noqa: BLE001
+                raise Unobservable(f"cannot make a Var of unknown type: {type(e).__name__}: {e}") from e
         return self.spox.argument(self.to_spox(d))
 
 
 def install_spy(env: Env):
     """Record (node class, out_variadic) of every control-flow node construction (observation only)."""
-    Node = env.node.Node
-    if getattr(Node.__init__, "_c19_spy", False):
-        return
-    orig = Node.__init__
+    try:
+        Node = env.node.Node
+        if getattr(Node.__init__, "_c19_spy", False):
+            env.spy_ok = True
+            return
+        orig = Node.__init__
 
-    def init(self, *a, **k):
-        if env.spy is not None and type(self).__name__ in NODE_CLASSES:
-            env.spy.append((type(self).__name__, k.get("out_variadic")))
-        return orig(self, *a, **k)
+        def init(self, *a, **k):
+            if env.spy is not None and type(self).__name__ in NODE_CLASSES:
+                env.spy.append((type(self).__name__, k.get("out_variadic")))
+            return orig(self, *a, **k)
 
-    init._c19_spy = True
-    init._c19_orig = orig
-    Node.__init__ = init
+        init._c19_spy = True
+        init._c19_orig = orig
+        Node.__init__ = init
+        env.spy_ok = True
+    except Exception as e:  # noqa: BLE001
+        env.spy_ok = False
+        env.problems.append(f"Node.__init__ (out_variadic of control-flow nodes) not observable: {type(e).__name__}: {e}")
 
 
 def remove_spy(env: Env):
-    Node = env.node.Node
-    if getattr(Node.__init__, "_c19_spy", False):
-        Node.__init__ = Node.__init__._c19_orig
+    try:
+        Node = env.node.Node
+        if getattr(Node.__init__, "_c19_spy", False):
+            Node.__init__ = Node.__init__._c19_orig
+    except Exception:  # noqa: BLE001
+        pass
 
 
 # ----------------------------------------------------------------------------- running a case
@@ -248,35 +284,54 @@ def run_real(env: Env, case, steps=()):
         operands = {k: [env.operand(d) for d in v] for k, v in case.get("lists", {}).items()}
         singles = {k: env.operand(d) for k, v in case.get("singles", {}).items() for d in [v]}
     cbs = {role: make_callback(env, op, ctor, case, role, rec, counters) for role in case["cbs"]}
+    if case.get("same_cb"):  # one callable object passed in both roles
+        cbs["then_branch"] = cbs["else_branch"]
     f = getattr(mod, ctor)
     env.spy = []
     outer = {}
-    try:
-        with warnings.catch_warnings():
-            warnings.simplefilter("ignore")
-            if ctor == "if_":
-                outer["cond"] = env.spox.argument(env.ts.Tensor(np.bool_, ()))
-                outs = f(outer["cond"], then_branch=cbs["then_branch"], else_branch=cbs["else_branch"])
-            elif ctor == "loop":
-                outer["M"] = env.spox.argument(env.ts.Tensor(np.int64, ()))
-                if case.get("cond") is not None:
-                    outer["cond"] = env.operand(case["cond"])
-                outs = f(outer["M"], outer.get("cond"), v_initial=operands["v_initial"], body=cbs["body"])
-            elif ctor == "scan":
-                outs = f(
-                    operands["initial_state_and_scan_inputs"], body=cbs["body"],
-                    num_scan_inputs=case["ints"]["num_scan_inputs"], scan_input_axes=case.get("axes"),
-                )
-            else:
-                outs = f(singles["input_sequence"], operands["additional_inputs"], body=cbs["body"])
-        outs = list(outs)
-        obs["result"] = ("ok", len(outs))
-    except Exception as e:  # noqa: BLE001
-        outs = None
-        obs["result"] = ("err", type(e).__name__, str(e)[:160])
+    if ctor == "if_":
+        outer["cond"] = env.spox.argument(env.ts.Tensor(np.bool_, ()))
+    elif ctor == "loop":
+        outer["M"] = env.spox.argument(env.ts.Tensor(np.int64, ()))
+        if case.get("cond") is not None:
+            outer["cond"] = env.operand(case["cond"])
+    obs["counts_calls"], obs["stages"] = [], []
+    for _rep in range(case.get("repeat", 1)):  # the same call again, with the very same callback objects
+        before = dict(counters)
+        n_spy = len(env.spy)
+        try:
+            with warnings.catch_warnings():
+                warnings.simplefilter("ignore")
+                if ctor == "if_":
+                    outs = f(outer["cond"], then_branch=cbs["then_branch"], else_branch=cbs["else_branch"])
+                elif ctor == "loop":
+                    outs = f(outer["M"], outer.get("cond"), v_initial=operands["v_initial"], body=cbs["body"])
+                elif ctor == "scan":
+                    outs = f(
+                        operands["initial_state_and_scan_inputs"], body=cbs["body"],
+                        num_scan_inputs=case["ints"]["num_scan_inputs"], scan_input_axes=case.get("axes"),
+                    )
+                else:
+                    outs = f(singles["input_sequence"], operands["additional_inputs"], body=cbs["body"])
+            outs = list(outs)
+            obs["result"] = ("ok", len(outs))
+        except Exception as e:  # noqa: BLE001
+            outs = None
+            obs["result"] = ("err", type(e).__name__, str(e)[:160])
+        delta = {r: counters.get(r, 0) - before.get(r, 0) for r in case["cbs"]}
+        obs["counts_calls"].append(delta)
+        if outs is not None:
+            st_ = "done"
+        elif env.spy_ok:
+            st_ = "node" if len(env.spy) > n_spy else "pre"
+        else:  # without the spy: the node is being created once every callback returned a well-formed result
+            roles_ = ["else_branch"] if case.get("same_cb") else (["else_branch", "then_branch"] if ctor == "if_" else ["body"])
+            st_ = "node" if all_good(case) and all(delta.get(r, 0) >= 1 for r in roles_) else "pre"
+        obs["stages"].append(st_)
     obs["spy"] = list(env.spy)
     env.spy = None
-    obs["stage"] = "done" if outs is not None else ("node" if obs["spy"] else "pre")
+    obs["stage"] = obs["stages"][-1]
+    obs["spy_ok"] = env.spy_ok
     all_operands = [v for vs in operands.values() for v in vs] + list(singles.values()) + list(outer.values())
     for role, args in rec:
         obs["events"].append((role, [env.from_spox(a.type) if isinstance(a, env.Var) else "non-var" for a in args]))
@@ -295,7 +350,12 @@ def run_real(env: Env, case, steps=()):
     if outs:
         try:
             node0 = outs[0]._op
+            last = {}
             for role, args in rec:
+                last[role] = args
+            if case.get("same_cb"):
+                last = {}
+            for role, args in last.items():
                 g = getattr(node0.attrs, role).value
                 same = g._arguments is not None and len(g._arguments) == len(args) and all(
                     a is b for a, b in zip(g._arguments, args))
@@ -307,7 +367,7 @@ def run_real(env: Env, case, steps=()):
             obs["stored"] = f"cannot read stored graph: {type(e).__name__}: {e}"
     # ---- later steps
     if outs is not None and steps:
-        node = outs[0]._op if outs else None
+        node = getattr(outs[0], "_op", None) if outs else None
         ins = {f"a{i}": v for i, v in enumerate(all_operands) if v.type is not None}
         with warnings.catch_warnings():
             warnings.simplefilter("ignore")
@@ -452,15 +512,17 @@ def judge(case, obs):
     res = obs["result"]
     order = ["else_branch", "then_branch"] if ctor == "if_" else ["body"]
     ev_roles = [r for r, _ in obs["events"]]
-    # -- exactly once, during the constructor call
-    for role in order:
-        c = obs["counts_ctor"].get(role, 0)
-        beh = case["cbs"][role]["beh"]
-        reached = obs["stage"] in ("done", "node")
-        if c > 1:
-            bad.append((f"{ctor}:{role}:count={c}", f"{role} invoked {c} times during the constructor call"))
-        elif beh != "notCallable" and pres is not None and reached and c != 1:
-            bad.append((f"{ctor}:{role}:count={c}", f"{role} invoked {c} times during the constructor call"))
+    # -- exactly once per constructor call (a callable passed in both roles of an If: once per role)
+    roles_mult = [("else_branch", 2)] if case.get("same_cb") else [(r, 1) for r in order]
+    for delta, stage in zip(obs["counts_calls"], obs["stages"]):
+        for role, mult in roles_mult:
+            c = delta.get(role, 0)
+            beh = case["cbs"][role]["beh"]
+            reached = stage in ("done", "node")
+            if c > mult:
+                bad.append((f"{ctor}:{role}:count={c}", f"{role} invoked {c} times during one constructor call (passed {mult}x)"))
+            elif beh != "notCallable" and pres is not None and reached and c != mult:
+                bad.append((f"{ctor}:{role}:count={c}", f"{role} invoked {c} times during one constructor call (passed {mult}x)"))
     # -- prescribed number, order and types of arguments
     if pres is not None:
         for role, types in obs["events"]:
@@ -473,7 +535,7 @@ def judge(case, obs):
                     bad.append((classify_type(case, i, w, g),
                                 f"{ctor} body argument {i} ({arg_role(case, i)}) typed {g}, ONNX prescribes {w}"))
         # operands valid for the operator, every callback well-formed: the callbacks must be reached
-        if all_good(case) and obs["stage"] == "pre" and not all(r in ev_roles for r in order):
+        if all_good(case) and obs["stage"] == "pre" and not all(r in ev_roles for r in order if not case.get("same_cb")):
             kinds = "+".join(sorted({arg_role(case, i) for i in range(len(pres[order[-1]]))})) or "none"
             bad.append((f"{ctor}:valid-operands-rejected:{kinds}:exception={res[1]}",
                         f"{ctor} raised {res[1]} ({res[2]}) before calling its body although the operands are valid"))
@@ -515,11 +577,21 @@ def judge(case, obs):
 
 
 # ----------------------------------------------------------------------------- model request / comparison
+def cb_ids(case):
+    """role -> identity of the callback object passed in that role"""
+    ids = {role: i for i, role in enumerate(sorted(case["cbs"]))}
+    if case.get("same_cb"):
+        ids["then_branch"] = ids["else_branch"]
+    return ids
+
+
 def model_request(case, steps):
     cbs = {}
-    for i, (role, c) in enumerate(sorted(case["cbs"].items())):
+    for role, i in cb_ids(case).items():
+        c = case["cbs"][role]
         cbs[role] = {"id": i, "beh": c["beh"], "n": c.get("n", 0)}
     return {
+        "repeat": case.get("repeat", 1),
         "mod": case["mod"], "ctor": case["ctor"], "lists": case.get("lists", {}),
         "singles": case.get("singles", {}), "ints": case.get("ints", {}), "cbs": cbs,
         "steps": [MODEL_STEP[s] for s in steps],
@@ -530,7 +602,7 @@ def compare(case, obs, m, steps):
     """-> None if model and implementation agree, else a description."""
     if m is None or "error" in m:
         return f"model error: {m}"
-    ids = {role: i for i, role in enumerate(sorted(case["cbs"]))}
+    ids = cb_ids(case)
     real_events = [[ids[r], ts] for r, ts in obs["events"]]
     model_events = [[e["cb"], e["types"]] for e in m["events"]]
     if real_events != model_events:
@@ -547,17 +619,24 @@ def compare(case, obs, m, steps):
         if obs["stage"] == "pre":
             return f"model returns {mr['ok']} outputs, real raised before creating the node: {res}"
         ov = [o for cls, o in obs["spy"] if NODE_CLASSES.get(cls) == case["ctor"]]
-        if not ov or ov[-1] != mr["ok"]:
+        if obs.get("spy_ok") and (not ov or ov[-1] != mr["ok"]):
             return f"model out_variadic {mr['ok']}, real node got {ov}"
         if res[0] == "ok" and res[1] != mr["ok"]:
             return f"model {mr['ok']} outputs, real {res[1]}"
     if obs.get("stored"):
         return "stored graph: " + obs["stored"]
-    real_counts = {str(ids[r]): obs["counts_ctor"].get(r, 0) for r in ids}
+    def by_id(counts):
+        out = {}
+        for r, i in ids.items():
+            if not (case.get("same_cb") and r == "then_branch"):
+                out[str(i)] = out.get(str(i), 0) + counts.get(r, 0)
+        return out
+
+    real_counts = by_id(obs["counts_ctor"])
     if real_counts != m["countsAfterCtor"]:
         return f"counters after the constructor: real={real_counts} model={m['countsAfterCtor']}"
     if obs["stage"] == "done" and steps:
-        real_counts = {str(ids[r]): obs["counts"].get(r, 0) for r in ids}
+        real_counts = by_id(obs["counts"])
         if real_counts != m["counts"]:
             return f"counters after {steps}: real={real_counts} model={m['counts']}"
     return None
@@ -597,6 +676,23 @@ def defining_modules(info):
         if d not in defs[c]:
             defs[c].append(d)
     return defs, res
+
+
+def fallback_resolves():
+    """(module, ctor, defining module) by import only (used when the AST extraction is unavailable)."""
+    import importlib
+
+    res = []
+    for p in sorted((core.REPO / "src/spox/opset/ai/onnx").glob("v*.py"), key=lambda q: int(q.stem[1:])):
+        try:
+            m = importlib.import_module(f"spox.opset.ai.onnx.{p.stem}")
+        except Exception:  # noqa: BLE001
+            continue
+        for c in CTORS:
+            f = getattr(m, c, None)
+            if f is not None:
+                res.append((p.stem, c, getattr(f, "__module__", p.stem).rsplit(".", 1)[-1]))
+    return res
 
 
 def gen_cases(ck, info):
@@ -686,8 +782,21 @@ def gen_cases(ck, info):
                 c = dict(rng.choice(sub))
                 c["cbs"] = {"body": dict(c["cbs"]["body"], container=cont)}
                 cases.append(c)
+    # ---- the same callable objects again: a second identical constructor call; one callable in both If roles
+    base = [c for c in cases if prescription(c) is not None and all_good(c) and "repeat" not in c]
+    for mod_ctor in sorted({(c["mod"], c["ctor"]) for c in base}):
+        sub = [c for c in base if (c["mod"], c["ctor"]) == mod_ctor]
+        for _ in range(ck.pick(6, 40)):
+            c = dict(rng.choice(sub))
+            c["repeat"] = rng.choice([2, 2, 3])
+            cases.append(c)
+    for mod in defs.get("if_", []):
+        for n in range(1, 3):
+            for rep in (1, 2):
+                c = finish_case({"mod": mod, "ctor": "if_", "n_if": n, "same_cb": True, "repeat": rep}, rng, "list")
+                cases.append(c)
     # ---- malformed callbacks and unnatural result counts
-    base = [c for c in cases if prescription(c) is not None]
+    base = [c for c in cases if prescription(c) is not None and not c.get("same_cb")]
     for _ in range(ck.pick(240, 2000)):
         c = dict(rng.choice(base))
         roles = list(c["cbs"])
@@ -880,7 +989,11 @@ def prog_ctor(prog):
 def run(ck: core.Check):
     from translator import subgraph_specs
 
-    info = subgraph_specs.generate()
+    try:
+        info = subgraph_specs.generate()
+    except Exception as e:  # noqa: BLE001 - a source the extractor cannot read is a broken tie, not a crash
+        ck.broken("translator", "C19 subgraph spec extraction", f"{type(e).__name__}: {e}\n{core.fmt_exc()}")
+        info = {"modules": {}, "generator": {}, "sites": {}, "resolves": fallback_resolves()}
     problems = []
     for m, fns in info["modules"].items():
         for c, spec in fns.items():
@@ -899,6 +1012,8 @@ def run(ck: core.Check):
 
     env = Env()
     install_spy(env)
+    for pr in env.problems:
+        ck.broken("correspondence", "C19 facet of spox not observable", pr)
     try:
         _run(ck, env, info)
     finally:
@@ -910,8 +1025,10 @@ def _run(ck: core.Check, env: Env, info):
     defs, resolves = defining_modules(info)
     # re-exported constructors are the very same function objects (behavioural, by import)
     for m, c, d in resolves:
-        if getattr(env.mods[m], c) is not getattr(env.mods[d], c):
+        if m not in env.mods or d not in env.mods or getattr(env.mods[m], c, None) is not getattr(env.mods[d], c, 0):
             ck.broken("correspondence", "C19 resolves", f"{m}.{c} is not {d}.{c}")
+    resolves = [r for r in resolves if r[0] in env.mods and r[2] in env.mods]
+    info = dict(info, resolves=resolves)
     cases = gen_cases(ck, info)
     # which cases also get the later steps (builds, inference, value propagation)
     n_steps = ck.pick(260, 2500)
@@ -940,8 +1057,16 @@ def _run(ck: core.Check, env: Env, info):
     stats = {"ctor": {}, "stage": {}, "model_err": 0, "with_steps": 0, "step_errors": {}, "containers": {},
              "behaviours": {}, "max_operands": 0, "prescribed": 0}
     mismatches = 0
+    unobservable = {}
     for case, steps, m in zip(cases, steps_of, model):
-        obs = run_real(env, case, steps)
+        try:
+            obs = run_real(env, case, steps)
+        except Exception as e:  # noqa: BLE001 - the harness could not look; never a crash, never a verdict by itself
+            sig = f"{type(e).__name__}: {str(e)[:120]}"
+            unobservable[sig] = unobservable.get(sig, 0) + 1
+            if len(unobservable) <= 3 and unobservable[sig] == 1:
+                ck.broken("correspondence", "C19 case not observable", f"case={case} :: {sig}\n{core.fmt_exc()[-600:]}")
+            continue
         nops = sum(len(v) for v in case.get("lists", {}).values())
         key = (case["mod"], case["ctor"], repr(case.get("lists")), repr(case.get("singles")), repr(case.get("ints")),
                repr(case.get("axes")), repr(sorted((r, c["beh"], c.get("n")) for r, c in case["cbs"].items())))
@@ -986,6 +1111,7 @@ def _run(ck: core.Check, env: Env, info):
         "correspondence_cases": len(cases),
         "correspondence_mismatches": mismatches,
         "ort_programs": n_ort,
+        "unobservable_cases": unobservable,
         "distribution": stats,
         "modules": sorted(env.mods),
     })
